@@ -353,7 +353,7 @@ func init() {
 						Atoms: []string{"multipart", "variable-consumed-by-two-services"},
 						// step-grained like the schedule part of C19: choices between the goroutine subtrees of the two services' steps
 						// (goroutine ids: handler 0, operation 0.k, step of one service 0.k.j)
-						Opt: explore.Options{Bound: bound, Horizon: 200000, Cache: true, GroupDepth: 2},
+						Opt:   explore.Options{Bound: bound, Horizon: 200000, Cache: true, GroupDepth: 2},
 						H:     mk(hu),
 						Fresh: func() explore.Harness { return mk(hu.freshCopy()) },
 						Post:  c13Post,
